@@ -33,6 +33,7 @@ Available algorithms: 'first-fit', 'best-fit', 'first-fit-decreasing',
 better results. For optimal solutions on small instances, use MILP instead.
 """
 
+import sys
 from collections.abc import Sequence
 
 from solvor.types import Result, Status
@@ -79,10 +80,11 @@ def solve_bin_pack(
         indices = list(range(n))
 
     # The running remainders pick up float residue (1.0 - 0.3 - 0.3 - 0.3 is a hair below 0.1): an item that fills a
-    # bin exactly must still fit, so the fit tests allow for rounding at the scale of the capacity. Integral data is
-    # subtracted exactly and gets no allowance.
+    # bin exactly must still fit. A remainder is the result of at most n subtractions, each rounded by at most half
+    # an ulp of the capacity, so that is all the fit tests allow for. Integral data is subtracted exactly and gets
+    # no allowance.
     integral = float(bin_capacity).is_integer() and all(float(size).is_integer() for size in item_sizes)
-    tol = 0.0 if integral else 1e-12 * bin_capacity
+    tol = 0.0 if integral else n * sys.float_info.epsilon * bin_capacity
 
     # Bins: list of (remaining_capacity, [item_indices])
     bins: list[tuple[float, list[int]]] = []
